@@ -83,6 +83,13 @@ CHECKS = {
             "every mode (builder equality with the forwarding table, result equality with handing over the Difficulty, so ignored "
             "setters leave the result untouched).",
             "DESIGN.md 3/C18", "TLA+ model checking (TLC) + spec-to-impl replay of every setter sequence"),
+    "C08": ("spec/ModsRep.tla + MC_ModsRep.tla; harness mods-replay; hook GameMods::verif_flags", "model_checking",
+            "Every crate-internal mod accessor is transcribed per representation (legacy / intermode / lazer with default settings); TLC "
+            "checks for all 2^12 selections x key mods x modes x lazer flag that the representations agree on everything a calculator "
+            "of that mode reads; the real accessor vectors of u32, GameModsLegacy, owned and borrowed GameModsIntermode and lazer GameMods "
+            "are compared with the model through a guarded hook, difficulty / strains / performance are compared bitwise across the "
+            "representations, and lazer rate mods / DifficultyAdjust against clock_rate / overrides on a grid.",
+            "DESIGN.md 3/C08", "TLA+ model checking (TLC) of the accessor tables + hook-based replay + end-to-end differential"),
 }
 
 NOT_YET = {
